@@ -25,6 +25,7 @@ type propCfg struct {
 	ThoroughCapS int
 	Race         bool // workers are built with -race (checkptr, race detector)
 	RunsPerProc  int  // >0: a worker process executes at most this many runs (fresh-process semantics)
+	GoMaxProcs   string // GOMAXPROCS of the workers ("" = 2)
 	Rule         string
 	Components   map[string][]string
 	Assumptions  []string
@@ -117,7 +118,7 @@ func init() {
 		Assumptions: []string{"oracles: deep copy taken right after unfolding vs. the target after all later activity; benign run (immutable input, whole buffer, fresh instances, no GC injection)", "checkptr and the race detector abort the worker on an invalid pointer conversion (attributed through the progress word)"},
 	}
 	registry["C19"] = &propCfg{
-		Engine: conc.Engine{}, EngineName: "conc", Level: "exploration", Race: true, RunsPerProc: 8,
+		Engine: conc.Engine{}, EngineName: "conc", Level: "exploration", Race: true, RunsPerProc: 8, GoMaxProcs: "1",
 		QuickRuns: 16000, ThoroughRuns: 400000, QuickCapS: 50, ThoroughCapS: 900,
 		Rule: "one run = 2-6 caller goroutines, each with a seeded program of 1-4 pipeline operations on instances of its own (fold->encoder->writer, reader->parser->unfolder, transcode, fold->unfold, iterator+unfolder reused across values, per-instance custom folders/unfolders that differ between tasks for the same Go type) over shared read-only documents, Go values and Go types, executed under the serialized seeded task scheduler (policy drawn from 7: uniform, sticky .5/.9/.99, round-robin, random priorities, run-to-completion) with a task switch possible at every Read, Write (before the buffer is consumed) and visitor event; a worker process executes at most 8 runs so that first use of every type happens under contention; evaluations = runs; distinct by (interleaving digest, programs) and non-trivial if more task switches than tasks occurred",
 		Components: map[string][]string{
